@@ -694,6 +694,17 @@ func (h *HttpServer) handleExchangeCall(ctx context.Context, w http.ResponseWrit
 	// Record input stats
 	stats.RecordInput(inputBatch.NumRows(), batchBufferSize(inputBatch))
 
+	// The batch handed to the handler must not carry the framework's
+	// transport keys either: when no cast was needed it is still the batch
+	// the IPC reader produced, with the raw request metadata — the sealed
+	// cursor and call tokens included — on it.
+	if bwm, ok := inputBatch.(arrow.RecordBatchWithMetadata); ok && bwm.Metadata().Len() > 0 {
+		clean := array.NewRecordBatchWithMetadata(inputBatch.Schema(), inputBatch.Columns(),
+			inputBatch.NumRows(), stripFrameworkTickMetadata(bwm.Metadata()))
+		defer clean.Release()
+		inputBatch = clean
+	}
+
 	out := newOutputCollector(schema, h.server.serverID, false)
 	out.setBudgets(h.maxResponseBytes, h.maxExternalizedResponseBytes, h.server.externalConfig != nil)
 	callCtx := &CallContext{
